@@ -4,7 +4,8 @@
    A package records its chemicals in order and, for every model index of its mixture, the chemical whose
    H / S / Cn functor the ideal mixture models evaluate there (they are addressed positionally: models[i]),
    together with [None] when the model looks the chemical's CURRENT functor up at call time, or [Some st] when
-   it keeps the functor objects that existed in store state st, when the mixture was built.
+   it keeps the functor objects that existed in store state st (when the mixture was built, or when data were last
+   patched into those objects).
    Generated (Gen_Packages.v): the order of the models, whether they are live, whether subset rebuilds the
    mixture.  The rest is modelled by hand from _thermo.py (__init__ :127/:288, extended :167, subset :174/:302,
    ideal :198/:323) and tied by the `pkg` / `pkghist` correspondence cases. *)
@@ -14,6 +15,8 @@ Import ListNotations.
 
 Section Pk.
   Variable St : Type.
+  (* same c s s': chemical c has the same H / S functor OBJECTS in store states s and s' *)
+  Variable same : nat -> St -> St -> bool.
 
   Record pkg : Type := mkPkg { p_ideal : bool;             (* IdealThermo rather than Thermo *)
                                p_chems : list nat; p_models : list (nat * option St) }.
@@ -52,10 +55,24 @@ Section Pk.
                                 else mkPkg true (p_chems p) []])
         | None => s
         end
-    | PChem f => (f st, ps)
+    | PChem f =>
+        (* models that hold the chemical's CURRENT functor objects keep holding them if the objects survive the change
+           (so they see data patched into them); objects that were replaced stay as they were *)
+        let st' := f st in
+        let refresh (e : nat * option St) :=
+          match snd e with
+          | Some s => if same (fst e) s st && same (fst e) st st' then (fst e, Some st') else e
+          | None => e
+          end in
+        (st', map (fun p => mkPkg (p_ideal p) (p_chems p) (map refresh (p_models p))) ps)
     end.
 
   Definition prun (s : pstate) (ops : list pop) : pstate := fold_left pstep ops s.
+
+  (* model index evaluates the functors the chemical has NOW *)
+  Definition entry_tracks (cur : St) (e : nat * option St) : Prop :=
+    match snd e with None => True | Some s => same (fst e) s cur = true end.
+  Definition no_chem (o : pop) : Prop := match o with PChem _ => False | _ => True end.
 End Pk.
 Arguments mkPkg {St}. Arguments p_ideal {St}. Arguments p_chems {St}. Arguments p_models {St}.
 Arguments PNew {St}. Arguments PSubset {St}. Arguments PExtended {St}. Arguments PIdeal {St}. Arguments PChem {St}.
